@@ -124,7 +124,7 @@ func (e *Engine) addObl(fn *ssa.Function, kind, text string, pos token.Pos, reac
 	k := e.occ[base]
 	e.occ[base] = k + 1
 	name := fmt.Sprintf("%s@%d", base, k)
-	if kind == "post" || kind == "inv.init" || kind == "inv.preserved" || kind == "dec" || kind == "lemma" || kind == "frame" || kind == "pre-of" || kind == "frame.init" || kind == "frame.preserved" {
+	if kind == "post" || kind == "inv.init" || kind == "inv.preserved" || kind == "dec" || kind == "lemma" || kind == "frame" || kind == "pre-of" || kind == "frame.init" || kind == "frame.preserved" || kind == "assert" {
 		name = base
 		if k > 0 {
 			name = fmt.Sprintf("%s@%d", base, k)
